@@ -119,6 +119,10 @@ func runCase(c *core.Ctx, i int) {
 		planShapeCase(c, rng)
 		return
 	}
+	if i%29 == 9 {
+		collectCase(c, rng)
+		return
+	}
 	switch x := rng.Intn(100); {
 	case x < 58:
 		layoutCase(c, rng, false)
